@@ -281,3 +281,34 @@ func Await(patience, watchdog time.Duration, cond func() bool) (met, quiescent b
 	c, quiescent = Quiesce(watchdog)
 	return cond(), quiescent, c
 }
+
+// Spinners samples the process for the given period and returns the
+// goroutines of the module that were present and runnable (never
+// parked) in every sample: code that keeps running instead of exiting
+// or blocking. Used only after Quiesce has failed for its whole
+// watchdog, as the bounded-progress reading of "the goroutine exits".
+func Spinners(period time.Duration, samples int) []G {
+	defer Progress.Add(1)
+	var alive map[string]G
+	for k := 0; k < samples; k++ {
+		c := takeCensus()
+		now := map[string]G{}
+		for _, g := range c.All {
+			if g.Relevant && !g.Blocked() && !strings.HasPrefix(g.State, "sleep") {
+				if _, ok := alive[g.ID]; ok || k == 0 {
+					now[g.ID] = g
+				}
+			}
+		}
+		alive = now
+		if len(alive) == 0 {
+			return nil
+		}
+		time.Sleep(period / time.Duration(samples))
+	}
+	out := make([]G, 0, len(alive))
+	for _, g := range alive {
+		out = append(out, g)
+	}
+	return out
+}
